@@ -177,6 +177,33 @@ def check_prepare(case, ctx):
         exp = x * 1000.0
     if not hs.unmasked_equal(m[0], exp, M, rtol=1e-12):
         ctx.violation(f"prepare-values-{form}", f"values misplaced for form {form} on {cfg}")
+        return
+    # the same Info object used again after its grid (same geometry, other flattening order) and then its mask were
+    # replaced through the documented setters: "applies exactly that mask" refers to the metadata as it is now
+    if cfg["cls"] == "esri":
+        return
+    order2 = "C" if order == "F" else "F"
+    info.grid = hg.build(dict(cfg, order=order2))
+    steps = [("after-grid-swap", M)]
+    M2 = ~M if (M.any() and not M.all()) else np.roll(M, 1)
+    steps.append(("after-mask-swap", M2))
+    for tag, mask_now in steps:
+        if tag == "after-mask-swap":
+            info.mask = M2
+        for flat in (True, False):
+            data = x.ravel(order=order2).copy() if flat else x.copy()
+            try:
+                r2 = tools.prepare(data, info)
+            except fm.FinamDataError as e:
+                ctx.violation(f"prepare-refused-{tag}", f"prepare refused data under a re-used Info: {e}")
+                return
+            m2 = r2.magnitude
+            if np.shape(m2) != (1,) + tuple(shape) or not np.array_equal(np.ma.getmaskarray(m2[0]), mask_now):
+                ctx.violation(f"prepare-mask-{tag}", f"{'flat' if flat else 'shaped'} data under a re-used Info ({tag}, order {order}->{order2}): result mask differs from the info mask on {cfg}")
+                return
+            if not hs.unmasked_equal(m2[0], x, mask_now, rtol=1e-12):
+                ctx.violation(f"prepare-values-{tag}", f"{'flat' if flat else 'shaped'} data under a re-used Info ({tag}): values misplaced on {cfg}")
+                return
 
 
 prepare_st = st.fixed_dictionaries({"grid": hg.grid_cfg(), "form": st.sampled_from(FORMS)})
